@@ -607,6 +607,7 @@ fn stat_from_json(v: &Value) -> ShimStat {
         pid_reads: g(7),
         tty_reads: g(8),
         dirs_permuted: g(9),
+        eof: 0,
     }
 }
 
